@@ -212,7 +212,7 @@ func (s *vfStore) Get(context.Context, libhead.Hash) (*header.ExtendedHeader, er
 func (s *vfStore) GetRangeByHeight(context.Context, *header.ExtendedHeader, uint64) ([]*header.ExtendedHeader, error) {
 	return nil, errVfNotUsed
 }
-func (s *vfStore) Has(context.Context, libhead.Hash) (bool, error)    { return false, errVfNotUsed }
+func (s *vfStore) Has(context.Context, libhead.Hash) (bool, error)         { return false, errVfNotUsed }
 func (s *vfStore) Append(context.Context, ...*header.ExtendedHeader) error { return errVfNotUsed }
 func (s *vfStore) GetRange(context.Context, uint64, uint64) ([]*header.ExtendedHeader, error) {
 	return nil, errVfNotUsed
